@@ -44,12 +44,12 @@ type Val struct {
 	Vals  []Val // Map: values, parallel to Keys
 }
 
-func NilV() Val               { return Val{K: Nil} }
-func BoolV(b bool) Val        { return Val{K: Bool, B: b} }
-func IntV(i int64) Val        { return Val{K: Int, I: i} }
-func FloatV(f float64) Val    { return Val{K: Float, F: f} }
-func StrV(s string) Val       { return Val{K: Str, S: s} }
-func SliceV(e ...Val) Val     { return Val{K: Slice, Elems: e} }
+func NilV() Val            { return Val{K: Nil} }
+func BoolV(b bool) Val     { return Val{K: Bool, B: b} }
+func IntV(i int64) Val     { return Val{K: Int, I: i} }
+func FloatV(f float64) Val { return Val{K: Float, F: f} }
+func StrV(s string) Val    { return Val{K: Str, S: s} }
+func SliceV(e ...Val) Val  { return Val{K: Slice, Elems: e} }
 func MapV(kv ...Val) Val { // MapV(k1, v1, k2, v2, ...)
 	m := Val{K: Map}
 	for i := 0; i+1 < len(kv); i += 2 {
